@@ -66,6 +66,11 @@ pub struct TrainCase {
     /// `init_offset_extra`): used where the start must be an exactly representable number
     #[serde(default)]
     pub init_offset_abs: Option<f64>,
+    /// speed-limited only: friction brake build-up (`ramp_up_time` s, `ramp_up_coeff`) set on
+    /// the sim's public `fric_brake` after construction; the builder itself gives every train
+    /// an instant brake (0 s), the type's own default is 60 s x 0.5
+    #[serde(default)]
+    pub brake_ramp_up: Option<(f64, f64)>,
 }
 
 pub struct TrainRun {
@@ -228,6 +233,10 @@ pub fn run_case(case: &TrainCase) -> TrainRun {
             }
         };
         run.built = true;
+        if let Some((t, c)) = case.brake_ramp_up {
+            sim.fric_brake.ramp_up_time = altrios_core::uc::S * t;
+            sim.fric_brake.ramp_up_coeff = altrios_core::uc::R * c;
+        }
         run.fric_force_max = sim.fric_brake.force_max.value;
         let mut started = false;
         let r = catch(|| slts_schedule(&mut sim, case, &net, &path, false, &mut started));
@@ -341,6 +350,10 @@ pub fn probe_walk_main(casefile: &str) -> i32 {
     lm.insert("B".into(), vec![location("B", n as u32)]);
     // no history: memory stays flat, only termination is observed
     let mut sim = tsb.make_speed_limit_train_sim(&lm, None, None, None).expect("sim");
+    if let Some((t, c)) = case.brake_ramp_up {
+        sim.fric_brake.ramp_up_time = altrios_core::uc::S * t;
+        sim.fric_brake.ramp_up_coeff = altrios_core::uc::R * c;
+    }
     let mut started = false;
     crate::engine::install_panic_hook();
     let r = catch(|| slts_schedule(&mut sim, &case, &net, &path, true, &mut started));
@@ -415,6 +428,56 @@ pub fn braking_points_of(sim: &SpeedLimitTrainSim) -> Vec<(f64, f64, f64)> {
         .and_then(|p| p.as_array())
         .map(|pts| pts.iter().filter_map(|p| Some((p["offset"].as_f64()?, p["speed_limit"].as_f64()?, p["speed_target"].as_f64()?))).collect())
         .unwrap_or_default()
+}
+
+/// Second root-cause discriminator (trains whose friction brake needs time to build up): the
+/// controller must aim for the lowest target among the braking points between the train and
+/// the end of its brake look-ahead `offset + speed x ramp_up_time x ramp_up_coeff` — every one
+/// of them, not just the nearest or the farthest (targets are not monotone along the path:
+/// a short slow section ends inside the window and the point after it carries the track
+/// speed again).  Only for runs whose braking points do not change during the run (whole
+/// path, then walk), so that the points read back afterwards are those every step used.
+/// Returns (steps compared, first deviation).
+pub fn lookahead_deviation(case: &TrainCase, run: &TrainRun) -> (usize, Option<String>) {
+    let Some((t, c)) = case.brake_ramp_up else { return (0, None) };
+    if case.mode != 1 || run.braking_points.is_empty() || run.states.len() < 2 {
+        return (0, None);
+    }
+    let adj = t * c;
+    let pts = &run.braking_points;
+    let mut checked = 0usize;
+    // the point the train is at is located as the code locates it (a cursor that starts at
+    // the last point and only moves towards the first: where a curve planted inside a slower
+    // zone makes the offsets non-monotone, "the first point at or behind the train" would be
+    // another one); what is under test is the minimum over the window
+    let mut idx_curr = pts.len() - 1;
+    for k in 1..run.states.len() {
+        let (x, v) = (run.states[k - 1].offset.value, run.states[k - 1].speed.value);
+        if pts[0].0 <= x {
+            idx_curr = 0;
+        } else {
+            while idx_curr >= 1 && pts[idx_curr - 1].0 <= x {
+                idx_curr -= 1;
+            }
+        }
+        let far = x + v * adj;
+        let mut want = pts[idx_curr].2;
+        let mut idx = idx_curr;
+        let mut lowest_at = idx_curr;
+        while idx >= 1 && pts[idx - 1].0 <= far {
+            if pts[idx - 1].2 < want {
+                want = pts[idx - 1].2;
+                lowest_at = idx - 1;
+            }
+            idx -= 1;
+        }
+        let got = run.states[k].speed_target.value;
+        checked += 1;
+        if (got - want).abs() > 1e-9 * want.abs().max(1.0) {
+            return (checked, Some(format!("step {k}: train at {x} m, {v} m/s, look-ahead to {far} m: target {got} m/s, lowest target of the braking points in the window {want} m/s (point at {} m)", pts[lowest_at].0)));
+        }
+    }
+    (checked, None)
 }
 
 /// Root-cause discriminator for overspeed failures: is the braking curve the sim laid out
@@ -647,7 +710,7 @@ pub fn gen_set_speed_case(g: &mut Gen, tier: Tier, allow_dummy: bool) -> TrainCa
             v = v_new;
             trace.push((r(t, 1), v));
         }
-        return TrainCase { links, train, mode: 0, trace, save_interval: Some(1), simulation_days: None, init_speed_zero: false, also_real_walk: false, scenario_year: None, and_parts: false, init_offset_extra: 0.0, hand_assembled: false, init_offset_abs: None, timed_speed: 0.0 };
+        return TrainCase { links, train, mode: 0, trace, save_interval: Some(1), simulation_days: None, init_speed_zero: false, also_real_walk: false, scenario_year: None, and_parts: false, init_offset_extra: 0.0, hand_assembled: false, init_offset_abs: None, timed_speed: 0.0, brake_ramp_up: None };
     }
     let o = ChainOpts { max_links: 6, len_weights: [6, 3, 1], ..Default::default() };
     let ahead = g.grid(400.0, 6000.0, 14);
@@ -671,7 +734,7 @@ pub fn gen_set_speed_case(g: &mut Gen, tier: Tier, allow_dummy: bool) -> TrainCa
                 t += 1.0;
                 trace.push((t, 0.0));
             }
-            return TrainCase { links, train, mode: 0, trace, save_interval: Some(1), simulation_days: None, init_speed_zero: false, also_real_walk: false, scenario_year: None, and_parts: false, init_offset_extra: 0.0, hand_assembled: false, init_offset_abs: Some(start), timed_speed: 0.0 };
+            return TrainCase { links, train, mode: 0, trace, save_interval: Some(1), simulation_days: None, init_speed_zero: false, also_real_walk: false, scenario_year: None, and_parts: false, init_offset_extra: 0.0, hand_assembled: false, init_offset_abs: Some(start), timed_speed: 0.0, brake_ramp_up: None };
         }
     }
     // 30 %: the train starts further along the path than with its tail at the beginning
@@ -679,7 +742,7 @@ pub fn gen_set_speed_case(g: &mut Gen, tier: Tier, allow_dummy: bool) -> TrainCa
     let init_offset_extra = if g.bool(0.3) && room > 50.0 { r(g.f64(1.0, room * 0.7), 1) } else { 0.0 };
     // consistent inputs: the trace starts at the train's initial time and speed
     let trace = gen_trace(g, total - tp.length - init_offset_extra - 20.0, 30.0, train.init_time, max_steps);
-    TrainCase { links, train, mode: 0, trace, save_interval: Some(1), simulation_days: None, init_speed_zero: false, also_real_walk: false, scenario_year: None, and_parts: false, init_offset_extra, hand_assembled: false, init_offset_abs: None, timed_speed: 0.0 }
+    TrainCase { links, train, mode: 0, trace, save_interval: Some(1), simulation_days: None, init_speed_zero: false, also_real_walk: false, scenario_year: None, and_parts: false, init_offset_extra, hand_assembled: false, init_offset_abs: None, timed_speed: 0.0, brake_ramp_up: None }
 }
 
 // ---------------------------------------------------------------------------------------
